@@ -153,6 +153,8 @@ class Analysis:
             elif n.kind in ('stmt',) and isinstance(n.ast, ast.Expr) \
                     and isinstance(n.ast.value, ast.Constant):
                 pass
+            elif n.kind == 'stmt' and isinstance(n.ast, ast.Pass):
+                pass        # left behind by the normalised view (alias local)
             elif n.kind not in ('entry',):
                 raise K.Unfoldable('statement %s' % n.text())
             nxt = [m for m, lab in n.succs if lab is None]
